@@ -223,7 +223,7 @@ class AdminLedgerDevice(LedgerDevice):
             cut = self.byz.get("signer_cut", 0)
             return m[:len(m) - cut] if cut else m
         m = self.byz.get("signer_header", b"POWHSM:5.4::") + self.byz.get("platform", b"led") + \
-            ud + self.byz.get("keys_hash", self.keys_hash()) + self.best_block + self.last_tx + \
+            self.byz.get("signer_ud", ud) + self.byz.get("keys_hash", self.keys_hash()) + self.best_block + self.last_tx + \
             self.timestamp.to_bytes(8, "big") + self.byz.get("signer_tail", b"")
         cut = self.byz.get("signer_cut", 0)
         return m[:len(m) - cut] if cut else m
